@@ -292,6 +292,11 @@ class Run:
                 continue
             # refuted
             status, rec = s.replay(o)
+            if o.meta.get("soft") and status != "reproduced":
+                # a PATTERN obligation (the code is no longer written the way the pattern expects) whose native replay finds nothing wrong: the pattern
+                # does not apply to this source text - recorded, neither a violation nor a failure (the bounded stand-in still covers the clause)
+                s.extra_cov.setdefault("pattern_not_recognised_replay_passed", []).append({"obligation": o.name, "detail": (o.detail or "")[:300]})
+                continue
             match = [f for f in kf_open if s._names(f, o.name)]
             if match and s._finding_applies(match[0], o, status, rec):
                 kf_hit.append((o, match[0]))
@@ -331,7 +336,7 @@ class Run:
             for o in undecided:
                 print(f"UNDECIDED property={s.pid} obligation={o.name} ({(o.detail or '')[:300]})")
                 code = 2
-        dropped = set(s.extra_cov.get("best_effort_not_decided", []))
+        dropped = set(s.extra_cov.get("best_effort_not_decided", [])) | {d["obligation"] for d in s.extra_cov.get("pattern_not_recognised_replay_passed", [])}
         if dropped:          # recorded in the evidence under their own heading; not part of the obligation count
             s.obls = [o for o in s.obls if o.name not in dropped]
         s._write_evidence(violations, undecided, faults, kf_hit)
